@@ -24,6 +24,7 @@ CONFIGS = [
     {"name": "seed1_reversed_noise", "hashseed": "1", "order": "reversed", "interleave_noise": True},
     {"name": "seed2_shuffled_plugin_import_order", "hashseed": "2", "order": "shuffled", "order_seed": 5, "shuffle_plugin_imports": True},
     {"name": "seed3_after_long_history", "hashseed": "3", "order": "forward", "warm_history": True, "interleave_noise": True},
+    {"name": "seed4_first_conversion_double_lazy_plugin_import", "hashseed": "4", "order": "forward", "no_preload": True, "first_double": True},
     {"name": "seed_random_shuffled", "hashseed": "random", "order": "shuffled", "order_seed": 11, "repeat": 2},
 ]
 
@@ -48,7 +49,7 @@ def _jitzoo() -> dict[str, Any]:
                 jnp.sort(x, axis=0), i, jnp.take(x, jnp.array([2, 0]), axis=1), jnp.flip(x, axis=1), jnp.squeeze(x[:, :1], axis=1), jnp.expand_dims(x, axis=(0, 2)))
 
     def b(x):
-        return (jnp.sum(x, axis=1, keepdims=True), jnp.max(x, axis=0), jnp.mean(x, axis=(0, 1)), jnp.prod(x, axis=1), jnp.var(x, axis=0, ddof=1), jnp.argmax(x, axis=1, keepdims=True),
+        return (jnp.argmax(x, axis=0), jnp.argmin(x, axis=1), jnp.argmax(x), jnp.sum(x, axis=1, keepdims=True), jnp.max(x, axis=0), jnp.mean(x, axis=(0, 1)), jnp.prod(x, axis=1), jnp.var(x, axis=0, ddof=1), jnp.argmax(x, axis=1, keepdims=True),
                 jax.nn.softmax(x, axis=0), jax.nn.log_softmax(x, axis=1), jax.nn.logsumexp(x, axis=1, keepdims=True), jax.nn.gelu(x, approximate=False), jax.nn.leaky_relu(x, negative_slope=0.3),
                 jax.nn.elu(x, alpha=0.5), jax.nn.one_hot(jnp.argmax(x, axis=1), 4, axis=0), jax.nn.standardize(x, axis=0))
 
@@ -80,6 +81,8 @@ def hand_export(name: str):
 
     from vlib import fnmods
 
+    if name.startswith("zoo_"):  # the same parametrised helpers, not jitted
+        return to_onnx(lambda x: _jitzoo()[name.split("_")[1]].__wrapped__(x), [(3, 4)], enable_double_precision=name.endswith("_double"))
     if name.startswith("jitzoo_"):
         helper = _jitzoo()[name.split("_")[1]]
         if name.endswith("_other_model"):  # a different model that shares the jitted helper (same operand shape and dtype)
@@ -113,6 +116,7 @@ def hand_export(name: str):
     raise KeyError(name)
 
 
+HAND_ZOO = ["zoo_a", "zoo_b", "zoo_c", "zoo_d", "zoo_e", "zoo_b_double", "zoo_d_double"]
 HAND_JIT = ["jitzoo_a_other_model", "jitzoo_a", "jitzoo_b", "jitzoo_c", "jitzoo_d", "jitzoo_e", "jitzoo_d_other_model"]
 HAND = ["function_used_by_failed_conversion", "gather_const_indices", "input_params_forwarded", "nchw_add_forest", "function_dedup_array_captures", "nested_functions", "loops_and_conds", "symbolic_two", "many_transposes", "double_consts"]
 
@@ -148,6 +152,7 @@ def enumerate_cases(tier: str, seed: int) -> list[dict[str, Any]]:
     for gi in range(0, len(reqs), group):
         cases.append({"key": f"group:reg:{gi // group}", "requests": reqs[gi : gi + group], "cost": 5.0, "timeout": 900})
     cases.append({"key": "group:hand", "requests": ["hand:" + h for h in HAND], "cost": 5.0, "timeout": 900})
+    cases.append({"key": "group:hand_zoo", "requests": ["hand:" + h for h in HAND_ZOO], "cost": 5.0, "timeout": 900})
     cases.append({"key": "group:hand_jit", "requests": ["hand:" + h for h in HAND_JIT], "cost": 5.0, "timeout": 900})
     n_graph = 60 if tier == "quick" else 600
     recipes = [r for r in graphgen.recipes(n_graph * 2, seed + 99) if r["t"] in ("transpose_chain", "add_forest", "transpose_reduce", "reshape_pair", "in_if", "in_function")][:n_graph]
